@@ -77,6 +77,18 @@ def main():
         sys.stdout.flush()
     bad = [o for o in res if o["status"] != "KILLED"]
     print(f"{len(res) - len(bad)}/{len(res)} killed")
+    if "--report" in args:
+        out = args[args.index("--report") + 1]
+        with open(out, "w") as f:
+            f.write("# Kill matrix of the deliberately broken versions under mutants/\n\n"
+                    "Produced by `tools/mutation_audit.py --all --tests --report mutants/RESULTS.md` (quick tier, seed " + seed + ").\n"
+                    "`baseline` = the pinned 77-test suite on the mutated copy (a mutant that fails it is not a change that 'passes the existing tests'; it is kept as a\n"
+                    "detector test only). `prefix-*` = the pre-fix code of a repaired defect.\n\n"
+                    "| property | mutant | baseline | status | s | first mechanisms reported |\n|---|---|---|---|---|---|\n")
+            for o in res:
+                mech = "; ".join(m.split("  (x")[0] for m in o.get("mechanisms", [])[:3]).replace("|", "\\|")
+                f.write(f"| {o.get('property', '')} | {os.path.basename(o['patch'])[:-6]} | {o.get('baseline', '-')[:40]} | {o['status']} | {o.get('wall_s', '')} | {mech} |\n")
+            f.write(f"\n{len(res) - len(bad)}/{len(res)} killed.\n")
     return 1 if bad else 0
 
 
